@@ -174,6 +174,82 @@ def rule_types(tree: Tree) -> RuleResult:
 AEAD_METHODS = ["decrypt_tls13_aead", "decrypt_tls13_stream_cipher", "decrypt_tls12_aead", "decrypt_tls12_chacha20"]
 
 
+AEAD_LAYOUT = {
+    "decrypt_tls13_aead": {"nonce": "byte_xor(IV, SEQ.to_bytes(8, 'big'))", "ciphertext": "record.binary",
+                           "aad": "int.to_bytes(record.record_type, 1, 'big') + record.record_version + record.record_length"},
+    "decrypt_tls13_stream_cipher": {"nonce": "byte_xor(IV, SEQ.to_bytes(8, 'big'))", "ciphertext": "record.binary",
+                                    "aad": "int.to_bytes(record.record_type, 1, 'big') + record.record_version + record.record_length"},
+    "decrypt_tls12_aead": {"nonce": "IV + record.binary[:8]", "ciphertext": "record.binary[8:]",
+                           "aad": "SEQ.to_bytes(8, 'big') + record.raw[:3] + (len(record.binary) - 8 - self.tag_length).to_bytes(2, 'big')"},
+    "decrypt_tls12_chacha20": {"nonce": "byte_xor(IV, SEQ.to_bytes(8, 'big'))", "ciphertext": "record.binary",
+                               "aad": "SEQ.to_bytes(8, 'big') + record.record_type.to_bytes(1, 'big') + record.record_version + (len(record.binary) - 16).to_bytes(2, 'big')"},
+}
+
+
+def _norm_expr(text_or_node) -> str:
+    e = ast.parse(text_or_node, mode="eval").body if isinstance(text_or_node, str) else text_or_node
+
+    class Strip(ast.NodeTransformer):
+        def visit_Call(self, node):
+            self.generic_visit(node)
+            # bytes(x) / int(x) / bytearray(x) conversions of values that already have that type do not change the AEAD input
+            if isinstance(node.func, ast.Name) and node.func.id in ("bytes", "int", "bytearray") and len(node.args) == 1 and not node.keywords:
+                return node.args[0]
+            return node
+    e = Strip().visit(e)
+    return ast.unparse(e)
+
+
+def _aead_call_forms(f, cfg, call: ast.Call) -> dict:
+    """nonce / ciphertext / additional data of the AEAD decrypt call with every single-definition local substituted; the direction's
+    iv / sequence-number locals (assigned from self.<d>_iv / self.<d>_seq in both arms) become IV / SEQ."""
+    import copy
+    defs = {}
+    multi = {}
+    for n in cfg.nodes:
+        if n.kind == "stmt" and isinstance(n.ast, ast.Assign) and len(n.ast.targets) == 1 and isinstance(n.ast.targets[0], ast.Name):
+            multi.setdefault(n.ast.targets[0].id, []).append(n.ast.value)
+    role = {}
+    for v, vals in multi.items():
+        ds = [dotted(x) or "" for x in vals]
+        if len(vals) == 2 and {ds[0].replace("server", "X").replace("client", "X")} == {ds[1].replace("server", "X").replace("client", "X")} and ds[0] != ds[1]:
+            if ds[0].endswith("_iv"):
+                role[v] = "IV"
+            elif ds[0].endswith("_seq"):
+                role[v] = "SEQ"
+            elif ds[0].endswith("_key"):
+                role[v] = "KEY"
+        elif len(vals) == 1:
+            defs[v] = vals[0]
+    from ..dataflow import reaching_definitions
+    rd = reaching_definitions(cfg)
+
+    def subst(e, at: int, depth=0):
+        e = copy.deepcopy(e)
+        here = rd.get(at, {})
+
+        class S(ast.NodeTransformer):
+            def visit_Name(self, node):
+                if node.id in role:
+                    return ast.Name(role[node.id], ast.Load())
+                ids = here.get(node.id, set())
+                if len(ids) == 1 and depth < 6:
+                    d = next(iter(ids))
+                    a = cfg.nodes[d].ast
+                    if isinstance(a, ast.Assign) and len(a.targets) == 1 and isinstance(a.targets[0], ast.Name):
+                        return subst(a.value, d, depth + 1)
+                return node
+        return S().visit(e)
+    out = {}
+    at = cfg.node_of(call)
+    args = list(call.args) + [None] * 3
+    for k, a in zip(("nonce", "ciphertext", "aad"), args[:3]):
+        if a is None:
+            continue
+        out[k] = _norm_expr(subst(a, at))
+    return out
+
+
 def rule_A5(tree: Tree) -> RuleResult:
     r = RuleResult("A5", "per-direction cipher state: the sequence number read into nonce/AAD is the one incremented exactly once after the AEAD call; "
                          "CBC residue chained from ciphertext; RC4 contexts created once; key switch assigns key, IV and seq=0 of one direction")
@@ -227,6 +303,13 @@ def rule_A5(tree: Tree) -> RuleResult:
         key_locals = {dotted(n.ast.targets[0]) for n in cfg.nodes if n.kind == "stmt" and isinstance(n.ast, ast.Assign) and (dotted(n.ast.value) or "").endswith("_key")}
         ok = uses_seq and bool(deps & iv_locals)
         r.ob(ok, Finding("A5", f"decryptor:Decryptor.{name}:nonce-inputs", f"Decryptor.{name}: the nonce/AAD handed to the AEAD call must derive from the direction's IV and sequence number (derives from {sorted(deps)})", m.line(f.node)))
+        # record layout of the AEAD call (RFC 5246 §6.2.3.3 / RFC 5288 / RFC 7905 / RFC 8446 §5.2–5.3): after forward substitution of the locals, the nonce,
+        # the ciphertext and the additional data are the expressions of the table — the explicit nonce comes from the record, not from the counter
+        r.instances += 1
+        got = _aead_call_forms(f, cfg, call)
+        want = AEAD_LAYOUT[name]
+        bad = [f"{k}: `{got.get(k)}` (expected `{want[k]}`)" for k in ("nonce", "ciphertext", "aad") if got.get(k) != _norm_expr(want[k])]
+        r.ob(not bad, Finding("A5", f"decryptor:Decryptor.{name}:aead-layout", f"Decryptor.{name}: AEAD inputs differ from the record layout — {'; '.join(bad)[:400]}", m.line(call)))
     # role purity of direction arms in decryptor.py
     for f in dec.methods.values():
         for n in body_walk(f.node):
